@@ -191,7 +191,7 @@ def main():
     if not violations:
         import replay
         bl = []
-        corpus_specs, inject_specs = [], []
+        corpus_specs, inject_specs, range_specs, ignore_specs = [], [], [], []
         for wsc in spec.get("bounded", []):
             if wsc.get("kind") == "lib":
                 bl.extend(getattr(registry, wsc["witnesses"]))
@@ -199,16 +199,20 @@ def main():
                 corpus_specs.append(wsc)
             elif wsc.get("kind") == "inject":
                 inject_specs.append(wsc)
+            elif wsc.get("kind") == "range":
+                range_specs.append(wsc)
+            elif wsc.get("kind") == "ignore":
+                ignore_specs.append(wsc)
             else:
                 bl.append(wsc)
-        if corpus_specs or inject_specs or any(x.get("kind") != "cli" for x in bl):
+        if corpus_specs or inject_specs or range_specs or ignore_specs or any(x.get("kind") != "cli" for x in bl):
             okb, errb = replay.build()      # the replay crate is rebuilt from /repo's working tree
             if not okb:
                 print(f"UNDECIDED property={prop}: the replay crate does not build against the current tree: {errb[-300:]}")
                 return 2
         # the repository's own test inputs under other configurations and column widths than the snapshots pin (bounded, labelled)
         for cs in corpus_specs:
-            cfgs = registry.CORPUS_CONFIGS_THOROUGH if tier == "thorough" else registry.CORPUS_CONFIGS_QUICK
+            cfgs = getattr(registry, "CORPUS_CONFIGS_" + cs["configs"]) if cs.get("configs") else (registry.CORPUS_CONFIGS_THOROUGH if tier == "thorough" else registry.CORPUS_CONFIGS_QUICK)
             widths = registry.CORPUS_WIDTHS_THOROUGH if tier == "thorough" else registry.CORPUS_WIDTHS_QUICK
             try:
                 fails, stats = replay.run_corpus(cfgs, widths)
@@ -230,6 +234,53 @@ def main():
                     continue
                 wsc = dict(kind="corpusfile", file=(None if f["kind"] == "timeout" else f["file"]), opts=f["opts"], column_width=f["column_width"], fkind=f["kind"])
                 violations.append(dict(unit="cli", fs="-", label="bounded:" + wid, text="bounded corpus sweep (stand-in for formatters outside every contract)",
+                                       diag=dict(message=f["detail"], fn="stylua_lib::format_code", rendered=json.dumps(f)[:3000]), res=None, scenario=wsc, scenario_result=f))
+        # C09 range sweep: every statement of the repository's test inputs as the formatting range
+        for cs in range_specs:
+            try:
+                fails, stats = replay.run_corpus_range(registry.RANGE_CONFIGS_THOROUGH if tier == "thorough" else registry.RANGE_CONFIGS_QUICK, thorough=(tier == "thorough"))
+            except Exception as e:
+                print(f"UNDECIDED property={prop}: range sweep did not run: {e}")
+                return 2
+            mine = [f for f in fails if f["kind"] in cs["kinds"]]
+            bounded_runs.append(dict(scenario=f"range sweep: every statement ({'nested ones included' if tier == 'thorough' else 'top-level, nested ones in files up to 6000 bytes'}) of {stats['files']} test inputs as the formatting range x {stats['configs']} configurations = {stats['runs']} runs; "
+                                              "the text in front of the statement's leading trivia and behind its last line is reproduced, blank lines in front of it are kept (capped at one)",
+                                     violated=bool(mine), detail=f"{len(mine)} failing runs"))
+            seen_c = set()
+            for f in mine:
+                wid = "range:" + f["file"] + ":" + str(f["range"][0]) + "-" + str(f["range"][1]) + ":" + f["kind"]
+                if wid in seen_c: continue
+                seen_c.add(wid)
+                kf = next((k for k in known if k["prop"] == prop and k["label"] == "bounded:" + wid), None)
+                if kf:
+                    print(f"KNOWN-FINDING: property={prop} bounded {wid} — {kf['text']}")
+                    known_bounded.append(kf); continue
+                if len(seen_c) > 8: continue      # one replay file per distinct statement, at most eight
+                wsc = dict(kind="rangefile", file=f["file"], opts=f["opts"], range=f["range"])
+                violations.append(dict(unit="cli", fs="-", label="bounded:" + wid, text="bounded range sweep (stand-in: in-range / out-of-range behaviour of the statement formatters outside every contract)",
+                                       diag=dict(message=f["detail"], fn="stylua_lib::format_code", rendered=json.dumps(f)[:3000]), res=None, scenario=wsc, scenario_result=f))
+        # C08 ignore sweep: a directive above every statement, a region around every pair of neighbouring top-level statements
+        for cs in ignore_specs:
+            try:
+                fails, stats = replay.run_corpus_ignore(registry.IGNORE_CONFIGS, thorough=(tier == "thorough"))
+            except Exception as e:
+                print(f"UNDECIDED property={prop}: ignore sweep did not run: {e}")
+                return 2
+            mine = [f for f in fails if f["kind"] in cs["kinds"]]
+            bounded_runs.append(dict(scenario=f"ignore sweep: `-- stylua: ignore` above every statement and an ignore start/end region around every pair of neighbouring top-level statements of {stats['files']} test inputs x {stats['configs']} configurations = {stats['runs']} runs; the ignored source text appears verbatim in the output",
+                                     violated=bool(mine), detail=f"{len(mine)} failing runs"))
+            seen_c = set()
+            for f in mine:
+                wid = "ignore:" + f["file"] + ":" + f["case"] + ":" + f["kind"]
+                if wid in seen_c: continue
+                seen_c.add(wid)
+                kf = next((k for k in known if k["prop"] == prop and k["label"] == "bounded:" + wid), None)
+                if kf:
+                    print(f"KNOWN-FINDING: property={prop} bounded {wid} — {kf['text']}")
+                    known_bounded.append(kf); continue
+                if len(seen_c) > 8: continue
+                wsc = dict(kind="ignorefile", file=f["file"], opts=f["opts"], case=f["case"])
+                violations.append(dict(unit="cli", fs="-", label="bounded:" + wid, text="bounded ignore sweep (stand-in: statement formatters outside every contract must leave an ignored statement alone)",
                                        diag=dict(message=f["detail"], fn="stylua_lib::format_code", rendered=json.dumps(f)[:3000]), res=None, scenario=wsc, scenario_result=f))
         # comment-injection sweep (vx/inject.py): one comment at every token boundary of a fixed list of small programs
         for cs in inject_specs:
